@@ -2781,4 +2781,12 @@ theorem pmf_parsed' {σ : Type} (c : Config) (P : PmfLearner σ V) (dflt : V) (f
       | ok r => rfl
   simp only [wrapPmf, hkw]
 
+/-! ## one evaluator object, several evaluations -/
+
+/-- an evaluator object is its configuration: applying it to a sequence of (learner, batching, environment, learner
+state) jobs is `evaluate` job by job -/
+theorem evaluator_stateless' {σ : Type} (c : Config) (jobs : List (Learner σ V × Option Nat × List (Dict (Fld V R)) × σ)) (k : Nat) :
+    (jobs.map (fun j => evaluate c j.1 j.2.1 j.2.2.1 j.2.2.2))[k]? = (jobs[k]?).map (fun j => evaluate c j.1 j.2.1 j.2.2.1 j.2.2.2) :=
+  List.getElem?_map
+
 end Coba.C06
